@@ -35,11 +35,25 @@ struct TraceMw {
     id: u64,
     log: Log,
 }
+/// id % 8: 0..4 forward; 5 forwards a rewritten copy of the request (other id, same query/body);
+/// 6 answers itself without calling `next`; 7 returns `Err` without calling `next`.
 impl Middleware for TraceMw {
     fn handle(&self, req: &Message, next: Next<'_>) -> Result<Message, RepeError> {
         self.log.lock().unwrap().push(Ev::Mw(self.id));
-        next.run(req)
+        match self.id % 8 {
+            5 => {
+                let mut copy = req.clone();
+                copy.header.id = copy.header.id.wrapping_add(1);
+                next.run(&copy)
+            }
+            6 => Ok(Message::builder().id(req.header.id).build()),
+            7 => Err(RepeError::Io(std::io::Error::new(std::io::ErrorKind::Other, "middleware refused"))),
+            _ => next.run(req),
+        }
     }
+}
+fn is_stopper(id: u64) -> bool {
+    id % 8 >= 6
 }
 
 type Seen = Arc<Mutex<Vec<(Option<String>, Option<u64>)>>>;
@@ -182,7 +196,7 @@ impl Scen {
         let log = self.log.clone();
         let r = std::mem::take(&mut self.router);
         // the registrar is a function of the handler id, so every `with_*` gets exercised
-        self.router = match id % 10 {
+        self.router = match id % 11 {
             0 => r.with_erased_handler(path, Arc::new(Leaf { id, log })),
             1 => r.with_json(path, move |_v| {
                 log.lock().unwrap().push(Ev::H(id));
@@ -216,7 +230,11 @@ impl Scen {
                 log.lock().unwrap().push(Ev::H(id));
                 Ok(Value::Null)
             }),
-            _ => r.with_handler(path, Adapter { id, log }),
+            9 => r.with_handler(path, Adapter { id, log }),
+            _ => r.with(path, move |_v| {
+                log.lock().unwrap().push(Ev::H(id));
+                Ok(Value::Null)
+            }),
         };
         self.exact.insert(path.to_string(), id);
     }
@@ -306,6 +324,10 @@ fn show_trace(t: &[Ev]) -> String {
     // canonical shape: middleware*, then exactly one handler event
     let n = t.len();
     let canonical = n >= 1 && t[..n - 1].iter().all(|e| matches!(e, Ev::Mw(_))) && !matches!(t[n - 1], Ev::Mw(_));
+    if n >= 1 && t.iter().all(|e| matches!(e, Ev::Mw(_))) && matches!(t[n - 1], Ev::Mw(i) if is_stopper(i)) && t[..n - 1].iter().all(|e| !matches!(e, Ev::Mw(i) if is_stopper(*i))) {
+        let mws: Vec<String> = t.iter().map(|e| if let Ev::Mw(i) = e { i.to_string() } else { unreachable!() }).collect();
+        return format!("stopped mws {}", mws.join(","));
+    }
     if !canonical {
         let mut s = String::from("trace");
         for e in t {
@@ -350,7 +372,9 @@ fn exec_get(out: &mut Out, sc: &mut Scen, line: &str, idx: &str, path: &str) -> 
         Some(h) => h,
     };
     let body = br#"{"__hit":1}"#;
-    let req = request(7, path, body, 2);
+    // the request id is a function of the op index (0, small, huge ids all occur)
+    let rid = idx.parse::<u64>().map(|i| if i % 7 == 0 { 0 } else if i % 7 == 1 { u64::MAX } else { i.wrapping_mul(0x9E37_79B9_7F4A_7C15) }).unwrap_or(7);
+    let req = request(rid, path, body, 2);
     let ctx = CallContext::detached(path);
     let mut traces: Vec<Vec<Ev>> = vec![];
     for route in 0..3 {
@@ -376,8 +400,21 @@ fn exec_get(out: &mut Out, sc: &mut Scen, line: &str, idx: &str, path: &str) -> 
     let obs = show_trace(t);
     // ---- direct oracles
     let seen_mws: Vec<u64> = t.iter().filter_map(|e| if let Ev::Mw(i) = e { Some(*i) } else { None }).collect();
-    if seen_mws != sc.mws {
-        out.oracle_fail("router.mw.not_uniform", &format!("path {:?}: middleware run {:?}, registered {:?}", path, seen_mws, sc.mws), &ops);
+    // registered middleware up to and including the first one that does not call `next` (op history)
+    let stop_at = sc.mws.iter().position(|m| is_stopper(*m));
+    let want_mws: Vec<u64> = match stop_at {
+        Some(k) => sc.mws[..=k].to_vec(),
+        None => sc.mws.clone(),
+    };
+    if seen_mws != want_mws {
+        out.oracle_fail("router.mw.not_uniform", &format!("path {:?}: middleware run {:?}, registered {:?} (expected to run {:?})", path, seen_mws, sc.mws, want_mws), &ops);
+    }
+    if stop_at.is_some() {
+        out.count("get.stopped");
+        if t.iter().any(|e| !matches!(e, Ev::Mw(_))) {
+            out.oracle_fail("router.mw.stopper_bypassed", &format!("path {:?}: a handler ran although middleware {} does not forward: {:?}", path, sc.mws[stop_at.unwrap()], t), &ops);
+        }
+        return (format!("{} {}", idx, obs), true);
     }
     let last = t.last().cloned();
     if let Some(want) = sc.exact.get(path) {
@@ -514,20 +551,24 @@ struct P {
 struct PAdapter {
     ok: bool,
     code: ErrorCode,
+    cb: u8,
 }
 impl JsonTypedHandler for PAdapter {
     type In = P;
     type Out = P;
     fn call(&self, p: P) -> Result<P, (ErrorCode, String)> {
+        misbehave(self.cb);
         if self.ok { Ok(P { a: p.a.wrapping_add(1), s: p.s }) } else { Err((self.code, "scripted failure".into())) }
     }
 }
 
 struct TwinRec {
     ok: bool,
+    cb: u8,
 }
 impl RepeStruct for TwinRec {
     fn repe_handle(&mut self, segments: &[&str], body: Option<Value>) -> Result<Option<Value>, StructError> {
+        misbehave(self.cb);
         if self.ok {
             Ok(Some(json!({"segs": segments, "body": body})))
         } else {
@@ -542,7 +583,47 @@ fn code_of(n: u32) -> ErrorCode {
 
 const TWIN_PATH: &str = "/t/x";
 
-fn twin_router(kind: &str, blocking: bool, ok: bool, code: ErrorCode, nmw: usize, order: u8, counts: &[Arc<AtomicU64>], seen: &Seen) -> Option<Router> {
+/// Callback behaviour `cb`: 0 plain; 1/2/3 panic with a String / &'static str / non-string payload;
+/// 4 slow (then plain).
+fn misbehave(cb: u8) {
+    match cb {
+        1 => panic!("{}", String::from("handler panicked (String payload)")),
+        2 => panic!("handler panicked (&'static str payload)"),
+        3 => std::panic::panic_any(42i32),
+        4 => std::thread::sleep(std::time::Duration::from_millis(1)),
+        _ => {}
+    }
+}
+
+/// "/a/b" -> ("/a", "/b"): where the registry / struct of the twin family is mounted, and what is below it.
+fn split_last(path: &str) -> (&str, &str) {
+    match path.rfind('/') {
+        Some(i) => (&path[..i], &path[i..]),
+        None => ("", path),
+    }
+}
+
+fn body_format_of(trfmt: u8) -> BodyFormat {
+    match trfmt % 5 {
+        1 => BodyFormat::Json,
+        2 => BodyFormat::Beve,
+        3 => BodyFormat::Utf8,
+        4 => BodyFormat::RawBinary,
+        _ => BodyFormat::Json,
+    }
+}
+
+struct TwinCfg<'a> {
+    kind: &'a str,
+    path: &'a str,
+    ok: bool,
+    code: ErrorCode,
+    trfmt: u8,
+    cb: u8,
+}
+
+fn twin_router(c: &TwinCfg, blocking: bool, nmw: usize, order: u8, counts: &[Arc<AtomicU64>], seen: &Seen) -> Option<Router> {
+    let (kind, path, ok, code, trfmt, cb) = (c.kind, c.path, c.ok, c.code, c.trfmt, c.cb);
     let mut r = Router::new();
     let add_mws = |mut r: Router| {
         for c in counts.iter().take(nmw) {
@@ -554,32 +635,49 @@ fn twin_router(kind: &str, blocking: bool, ok: bool, code: ErrorCode, nmw: usize
         r = add_mws(r);
     }
     let fail = move || -> (ErrorCode, String) { (code, "scripted failure".into()) };
+    let fmt = body_format_of(trfmt);
+    let (mount, below) = split_last(path);
     r = match (kind, blocking) {
-        ("json", false) => r.with_json(TWIN_PATH, move |v| if ok { Ok(json!({"echo": v})) } else { Err(fail()) }),
-        ("json", true) => r.with_json_blocking(TWIN_PATH, move |v| if ok { Ok(json!({"echo": v})) } else { Err(fail()) }),
-        ("jsonctx", false) => r.with_json_ctx(TWIN_PATH, move |c: &CallContext, v| if ok { Ok(json!({"m": c.method(), "peer": c.peer().map(|p| p.peer_id().0), "echo": v})) } else { Err(fail()) }),
-        ("jsonctx", true) => r.with_json_ctx_blocking(TWIN_PATH, move |c: &CallContext, v| if ok { Ok(json!({"m": c.method(), "peer": c.peer().map(|p| p.peer_id().0), "echo": v})) } else { Err(fail()) }),
-        ("typed", false) => r.with_typed::<P, P, _>(TWIN_PATH, move |p: P| -> Result<TypedResponse<P>, (ErrorCode, String)> {
-            if ok { Ok(TypedResponse::beve(P { a: p.a.wrapping_add(1), s: p.s })) } else { Err(fail()) }
+        ("json", false) if trfmt % 2 == 1 => r.with(path, move |v| { misbehave(cb); if ok { Ok(json!({"echo": v})) } else { Err(fail()) } }),
+        ("json", false) => r.with_json(path, move |v| { misbehave(cb); if ok { Ok(json!({"echo": v})) } else { Err(fail()) } }),
+        ("json", true) => r.with_json_blocking(path, move |v| { misbehave(cb); if ok { Ok(json!({"echo": v})) } else { Err(fail()) } }),
+        ("jsonctx", false) => r.with_json_ctx(path, move |c: &CallContext, v| { misbehave(cb); if ok { Ok(json!({"m": c.method(), "peer": c.peer().map(|p| p.peer_id().0), "echo": v})) } else { Err(fail()) } }),
+        ("jsonctx", true) => r.with_json_ctx_blocking(path, move |c: &CallContext, v| { misbehave(cb); if ok { Ok(json!({"m": c.method(), "peer": c.peer().map(|p| p.peer_id().0), "echo": v})) } else { Err(fail()) } }),
+        // trfmt 0: the closure returns a bare `R` (IntoTypedResponse for R = JSON); 1..4: TypedResponse::{json,beve,utf8,raw_binary}
+        ("typed", false) if trfmt % 5 == 0 => r.with_typed::<P, P, _>(path, move |p: P| -> Result<P, (ErrorCode, String)> {
+            misbehave(cb);
+            if ok { Ok(P { a: p.a.wrapping_add(1), s: p.s }) } else { Err(fail()) }
         }),
-        ("typed", true) => r.with_typed_blocking::<P, P, _>(TWIN_PATH, move |p: P| -> Result<TypedResponse<P>, (ErrorCode, String)> {
-            if ok { Ok(TypedResponse::beve(P { a: p.a.wrapping_add(1), s: p.s })) } else { Err(fail()) }
+        ("typed", false) => r.with_typed::<P, P, _>(path, move |p: P| -> Result<TypedResponse<P>, (ErrorCode, String)> {
+            misbehave(cb);
+            let v = P { a: p.a.wrapping_add(1), s: p.s };
+            if ok { Ok(match trfmt % 5 { 1 => TypedResponse::json(v), 2 => TypedResponse::beve(v), 3 => TypedResponse::utf8(v), _ => TypedResponse::raw_binary(v) }) } else { Err(fail()) }
         }),
-        ("typedctx", false) => r.with_typed_ctx::<P, P, _>(TWIN_PATH, move |c: &CallContext, p: P| -> Result<P, (ErrorCode, String)> {
-            if ok { Ok(P { a: p.a.wrapping_add(1), s: format!("{}{:?}{}", c.method(), c.peer().map(|p| p.peer_id().0), p.s) }) } else { Err(fail()) }
+        ("typed", true) => r.with_typed_blocking::<P, P, _>(path, move |p: P| -> Result<TypedResponse<P>, (ErrorCode, String)> {
+            misbehave(cb);
+            if ok { Ok(TypedResponse::new(P { a: p.a.wrapping_add(1), s: p.s }, fmt)) } else { Err(fail()) }
         }),
-        ("typedctx", true) => r.with_typed_ctx_blocking::<P, P, _>(TWIN_PATH, move |c: &CallContext, p: P| -> Result<P, (ErrorCode, String)> {
-            if ok { Ok(P { a: p.a.wrapping_add(1), s: format!("{}{:?}{}", c.method(), c.peer().map(|p| p.peer_id().0), p.s) }) } else { Err(fail()) }
+        ("typedctx", false) => r.with_typed_ctx::<P, P, _>(path, move |c: &CallContext, p: P| -> Result<TypedResponse<P>, (ErrorCode, String)> {
+            misbehave(cb);
+            if ok { Ok(TypedResponse::new(P { a: p.a.wrapping_add(1), s: format!("{}{:?}{}", c.method(), c.peer().map(|p| p.peer_id().0), p.s) }, fmt)) } else { Err(fail()) }
         }),
-        ("adapter", false) => r.with_handler(TWIN_PATH, PAdapter { ok, code }),
-        ("slice", false) => r.with_typed_slice::<f64, f64, _>(TWIN_PATH, move |xs: Vec<f64>| if ok { Ok(xs.iter().map(|x| x * 2.0).collect()) } else { Err(fail()) }),
-        ("sliceref", false) => r.with_typed_slice_ref::<f64, f64, _>(TWIN_PATH, move |xs: &[f64]| if ok { Ok(xs.iter().map(|x| x * 2.0).collect()) } else { Err(fail()) }),
+        ("typedctx", true) => r.with_typed_ctx_blocking::<P, P, _>(path, move |c: &CallContext, p: P| -> Result<TypedResponse<P>, (ErrorCode, String)> {
+            misbehave(cb);
+            if ok { Ok(TypedResponse::new(P { a: p.a.wrapping_add(1), s: format!("{}{:?}{}", c.method(), c.peer().map(|p| p.peer_id().0), p.s) }, fmt)) } else { Err(fail()) }
+        }),
+        ("adapter", false) => r.with_handler(path, PAdapter { ok, code, cb }),
+        ("slice", false) => r.with_typed_slice::<f64, f64, _>(path, move |xs: Vec<f64>| { misbehave(cb); if ok { Ok(xs.iter().map(|x| x * 2.0).collect()) } else { Err(fail()) } }),
+        ("sliceref", false) => r.with_typed_slice_ref::<f64, f64, _>(path, move |xs: &[f64]| { misbehave(cb); if ok { Ok(xs.iter().map(|x| x * 2.0).collect()) } else { Err(fail()) } }),
         ("registry", false) => {
             let reg = Arc::new(Registry::new());
-            reg.register_function("/x", move |p: Option<Value>| if ok { Ok(json!({"p": p})) } else { Err(fail()) }).ok()?;
-            r.with_registry("/t", reg)
+            reg.register_function(below, move |p: Option<Value>| { misbehave(cb); if ok { Ok(json!({"p": p})) } else { Err(fail()) } }).ok()?;
+            if trfmt % 2 == 0 { r.with_registry(mount, reg) } else { r.register_registry(mount, reg); r }
         }
-        ("struct", false) => r.with_struct("/t", TwinRec { ok }).0,
+        ("struct", false) => match trfmt % 3 {
+            0 => r.with_struct(mount, TwinRec { ok, cb }).0,
+            1 => { r.register_struct(mount, TwinRec { ok, cb }); r }
+            _ => r.with_struct_shared::<TwinRec, std::sync::RwLock<TwinRec>>(mount, Arc::new(std::sync::RwLock::new(TwinRec { ok, cb }))),
+        },
         _ => return None,
     };
     if order != 0 {
@@ -591,22 +689,47 @@ fn twin_router(kind: &str, blocking: bool, ok: bool, code: ErrorCode, nmw: usize
 static E2E_DONE: AtomicU64 = AtomicU64::new(0);
 static E2E_CAP: AtomicU64 = AtomicU64::new(250);
 
-/// One request through a real `repe::Server` on a loopback socket. Socket trouble is reported as
-/// Err and never judged (one-sided: only a response that arrives is compared).
-fn tcp_roundtrip(router: Router, req: &Message) -> Result<Message, &'static str> {
+fn async_rt() -> &'static tokio::runtime::Runtime {
+    static RT: std::sync::OnceLock<tokio::runtime::Runtime> = std::sync::OnceLock::new();
+    RT.get_or_init(|| tokio::runtime::Builder::new_multi_thread().worker_threads(2).enable_all().build().expect("tokio runtime"))
+}
+
+/// `decoys` requests and then the real one, pipelined on ONE connection to a real server (blocking
+/// `repe::Server` or `repe::AsyncServer`, options from `srv`); returns the response to the last.
+/// Socket trouble is reported as Err and never judged (only a response that arrives is compared).
+fn tcp_roundtrip(router: Router, frames: &[Vec<u8>], srv: u8) -> Result<Vec<Message>, &'static str> {
     use std::io::Write;
-    let server = repe::Server::new(router);
-    let listener = server.listen("127.0.0.1:0").map_err(|_| "bind")?;
-    let addr = listener.local_addr().map_err(|_| "addr")?;
-    std::thread::spawn(move || {
-        let _ = server.serve(listener);
-    });
+    let to = |bit: u8| if srv & bit != 0 { Some(std::time::Duration::from_secs(30)) } else { None };
+    let addr = if srv & 8 == 0 {
+        let server = repe::Server::new(router).tcp_nodelay(srv & 1 != 0).read_timeout(to(2)).write_timeout(to(4));
+        let listener = server.listen("127.0.0.1:0").map_err(|_| "bind")?;
+        let addr = listener.local_addr().map_err(|_| "addr")?;
+        std::thread::spawn(move || {
+            let _ = server.serve(listener);
+        });
+        addr
+    } else {
+        let rt = async_rt();
+        let listener = rt.block_on(repe::AsyncServer::listen("127.0.0.1:0")).map_err(|_| "bind")?;
+        let addr = listener.local_addr().map_err(|_| "addr")?;
+        let server = repe::AsyncServer::new(router).read_timeout(to(2)).write_timeout(to(4));
+        rt.spawn(async move {
+            let _ = server.serve(listener).await;
+        });
+        addr
+    };
     let mut stream = std::net::TcpStream::connect(addr).map_err(|_| "connect")?;
     stream.set_read_timeout(Some(std::time::Duration::from_secs(20))).map_err(|_| "timeout")?;
     stream.set_nodelay(true).ok();
-    stream.write_all(&req.to_vec()).map_err(|_| "write")?;
+    for f in frames {
+        stream.write_all(f).map_err(|_| "write")?;
+    }
     stream.flush().ok();
-    repe::read_message(&mut stream).map_err(|_| "read")
+    let mut all = Vec::new();
+    for _ in frames {
+        all.push(repe::read_message(&mut stream).map_err(|_| "read")?);
+    }
+    Ok(all)
 }
 
 /// Final response as the dispatch layer would send it (echo rule + error mapping), canonical text.
@@ -629,7 +752,7 @@ fn norm(req_id: u64, req_query: &[u8], r: Result<Result<Message, RepeError>, Str
 fn exec_twin(out: &mut Out, line: &str, w: &[&str]) -> (String, bool) {
     let idx = w[1];
     let bad = || (format!("{} bad-op", idx), false);
-    if w.len() != 15 {
+    if w.len() != 24 {
         return bad();
     }
     let kind = w[2];
@@ -644,23 +767,78 @@ fn exec_twin(out: &mut Out, line: &str, w: &[&str]) -> (String, bool) {
     let qfmt: u16 = w[12].parse().unwrap_or(1);
     let Some(query) = unhex(w[13]) else { return bad() };
     let rid: u64 = w[14].parse().unwrap_or(1);
+    let notify: u8 = w[15].parse().unwrap_or(0);
+    let version: u8 = w[16].parse().unwrap_or(1);
+    let reserved: u32 = w[17].parse().unwrap_or(0);
+    let reqec: u32 = w[18].parse().unwrap_or(0);
+    let trfmt: u8 = w[19].parse().unwrap_or(0);
+    let cb: u8 = w[20].parse().unwrap_or(0);
+    let Some(tpath) = unshex(w[21]) else { return bad() };
+    let srv: u8 = w[22].parse().unwrap_or(0);
+    let decoys: usize = w[23].parse().unwrap_or(0);
+    let panics = (1..=3).contains(&cb);
     let ops = vec![line.to_string()];
     let counts: Vec<Arc<AtomicU64>> = (0..nmw).map(|_| Arc::new(AtomicU64::new(0))).collect();
     let seen: Seen = Arc::new(Mutex::new(vec![]));
-    let (Some(plain), Some(raw), Some(wrapped)) = (
-        twin_router(kind, false, ok, code, 0, 0, &counts, &seen),
-        twin_router(kind, blocking, ok, code, 0, 0, &counts, &seen),
-        twin_router(kind, blocking, ok, code, nmw, order, &counts, &seen),
-    ) else {
+    let cfg = TwinCfg { kind, path: &tpath, ok, code, trfmt, cb };
+    let (Some(plain), Some(raw), Some(wrapped)) =
+        (twin_router(&cfg, false, 0, 0, &counts, &seen), twin_router(&cfg, blocking, 0, 0, &counts, &seen), twin_router(&cfg, blocking, nmw, order, &counts, &seen))
+    else {
         return bad();
     };
-    let (Some(hp), Some(hr), Some(hw)) = (plain.get(TWIN_PATH), raw.get(TWIN_PATH), wrapped.get(TWIN_PATH)) else {
+    let (Some(hp), Some(hr), Some(hw)) = (plain.get(&tpath), raw.get(&tpath), wrapped.get(&tpath)) else {
         out.oracle_fail("router.twin.not_found", "registered route not found", &ops);
         return (format!("{} none", idx), false);
     };
     let mut req = Message::builder().id(rid).query_bytes(query.clone()).query_format_code(qfmt).body_bytes(body.clone()).body_format_code(bfmt).build();
     req.header.query_format = qfmt;
     req.header.body_format = bfmt;
+    // header fields no handler should care about (the envelope checks are `route`'s, see C03)
+    req.header.notify = notify;
+    req.header.version = version;
+    req.header.reserved = reserved;
+    req.header.ec = reqec;
+    // ---- reuse: the same handler instances first serve `decoys` other requests (an undecodable one,
+    // a large valid one, one in a rejected format), then the real one; a never-used instance gives the baseline
+    // a query of the same length as the route path but different content (stale per-connection state shows here)
+    let sibling: String = {
+        let mut cs: Vec<char> = tpath.chars().collect();
+        if let Some(l) = cs.last_mut() {
+            *l = if *l == 'y' { 'w' } else { 'y' };
+        }
+        let t: String = cs.into_iter().collect();
+        if t.len() == tpath.len() { t } else { format!("/{}", "y".repeat(tpath.len().saturating_sub(1))) }
+    };
+    let decoy_reqs: Vec<Message> = [
+        (b"xyz".to_vec(), 77u16, sibling.as_str()),
+        (serde_json::to_vec(&json!({"a": 5, "s": "d".repeat(9000)})).unwrap(), 2u16, tpath.as_str()),
+        (b"{\"unterminated".to_vec(), 2u16, "/decoy/a"),
+    ]
+    .iter()
+    .take(decoys)
+    .enumerate()
+    .map(|(i, (b, f, q))| Message::builder().id(rid ^ (i as u64 + 1)).query_str(q).query_format_code(1).body_bytes(b.clone()).body_format_code(*f).build())
+    .collect();
+    let mut fresh_baseline: Option<String> = None;
+    if !panics {
+        if let Some(fr) = twin_router(&cfg, false, 0, 0, &counts, &seen) {
+            if let Some(fh) = fr.get(&tpath) {
+                fresh_baseline = Some(norm(rid, &query, catch(|| fh.handle(&req))));
+            }
+        }
+        for d in &decoy_reqs {
+            let dctx = CallContext::detached("/decoy");
+            for h in [&hp, &hr, &hw] {
+                let dv = MessageView { header: d.header, query: &d.query, body: &d.body };
+                let _ = catch(|| h.handle_view(&dv, &dctx));
+                let _ = catch(|| h.handle(d));
+            }
+        }
+        for c in &counts {
+            c.store(0, Ordering::SeqCst);
+        }
+        seen.lock().unwrap().clear();
+    }
     // the borrowed view lives in a separate buffer at a chosen misalignment
     let mut backing = vec![0u8; voff + query.len() + 16 + body.len()];
     let qs = voff;
@@ -701,8 +879,22 @@ fn exec_twin(out: &mut Out, line: &str, w: &[&str]) -> (String, bool) {
         }
     }
     let r0 = results[0].1.clone();
+    if panics {
+        // The property says nothing about a handler that panics (a std lock may be poisoned by the
+        // first route, so later routes legitimately differ): exercised and classified, not judged.
+        let class = first.unwrap();
+        out.count(&format!("twin.{}.cb_panic.{}", kind, class.split(' ').next().unwrap()));
+        let exec = exec_name(hw.execution());
+        let printed = if kind == "registry" { "-".to_string() } else { class };
+        return (format!("{} {} exec {} links {}", idx, printed, exec, nmw), true);
+    }
     if r0 == "PANIC" {
         out.oracle_fail(&format!("router.twin.{}.panic", kind), "handler panicked", &ops);
+    }
+    if let Some(fb) = &fresh_baseline {
+        if *fb != r0 {
+            out.oracle_fail(&format!("router.twin.{}.reuse", kind), &format!("after {} earlier requests the handler answered\n  {}\nbut a never-used instance answers\n  {}", decoys, r0, fb), &ops);
+        }
     }
     for (name, r) in results.iter().skip(1) {
         if *r != r0 {
@@ -748,16 +940,27 @@ fn exec_twin(out: &mut Out, line: &str, w: &[&str]) -> (String, bool) {
     }
     // end to end: the same request over TCP through the real `Server` (read_message_into →
     // MessageView → route_request_view → dispatch_view → echo) must give the same response
-    if voff == 8 && qfmt == 1 && E2E_DONE.load(Ordering::SeqCst) < E2E_CAP.load(Ordering::SeqCst) {
+    if idx.parse::<u64>().map(|i| i % 4 == 0).unwrap_or(false) && qfmt == 1 && version == 1 && notify != 1 && E2E_DONE.load(Ordering::SeqCst) < E2E_CAP.load(Ordering::SeqCst) {
         if let Ok(path) = std::str::from_utf8(&query) {
             if wrapped.get(path).is_some() {
                 E2E_DONE.fetch_add(1, Ordering::SeqCst);
-                match tcp_roundtrip(wrapped.clone(), &req) {
-                    Ok(m) => {
-                        out.count("twin.e2e.ok");
+                let mut frames: Vec<Vec<u8>> = decoy_reqs.iter().map(|d| d.to_vec()).collect();
+                frames.push(req.to_vec());
+                let which = if srv & 8 == 0 { "tcp_server" } else { "async_server" };
+                match tcp_roundtrip(wrapped.clone(), &frames, srv) {
+                    Ok(mut all) => {
+                        out.count(&format!("twin.e2e.{}.ok", which));
+                        let m = all.pop().unwrap();
+                        // earlier responses on the connection: none of these handlers sets a query of its own, so each
+                        // must carry its own request's id and query (nothing left over from a neighbour)
+                        for (d, resp) in decoy_reqs.iter().zip(all.iter()) {
+                            if resp.header.id != d.header.id || resp.query != d.query {
+                                out.oracle_fail(&format!("router.twin.{}.{}.pipelined", kind, which), &format!("request id={} q={} on a shared connection was answered with id={} q={}", d.header.id, hex(&d.query), resp.header.id, hex(&resp.query)), &ops);
+                            }
+                        }
                         let got = norm(rid, &query, Ok(Ok(m)));
                         if got != r0 {
-                            out.oracle_fail(&format!("router.twin.{}.tcp_server", kind), &format!("the TCP server answered\n  {}\nbut plain.handle answered\n  {}", got, r0), &ops);
+                            out.oracle_fail(&format!("router.twin.{}.{}", kind, which), &format!("the server (options {}, after {} requests on the connection) answered\n  {}\nbut plain.handle answered\n  {}", srv, decoys, got, r0), &ops);
                         }
                     }
                     Err(e) => out.count(&format!("twin.e2e.io_error.{}", e)),
@@ -767,8 +970,8 @@ fn exec_twin(out: &mut Out, line: &str, w: &[&str]) -> (String, bool) {
     }
     // `with_handler` (JsonTypedAdapter) must gate body formats like `with_typed` does for the same input type
     if kind == "adapter" {
-        if let Some(tr) = twin_router("typed", false, ok, code, 0, 0, &counts, &seen) {
-            if let Some(th) = tr.get(TWIN_PATH) {
+        if let Some(tr) = twin_router(&TwinCfg { kind: "typed", path: &tpath, ok, code, trfmt, cb }, false, 0, 0, &counts, &seen) {
+            if let Some(th) = tr.get(&tpath) {
                 let is_gate_rej = |r: &Result<Result<Message, RepeError>, String>| matches!(r, Ok(Ok(m)) if m.header.ec == 4 && m.body.starts_with(b"Expected"));
                 let a = catch(|| hp.handle(&req));
                 let t = catch(|| th.handle(&req));
@@ -802,13 +1005,17 @@ struct Inner {
     deep: Deep,
 }
 #[derive(Default, Serialize, Deserialize, repe::RepeStruct)]
-#[repe(methods(echo(&self, v: Value) -> Value, ping(&self) -> i64, touch(&mut self)))]
+#[repe(methods(echo(&self, v: Value) -> Value, ping(&self) -> i64, touch(&mut self), boom(&self, k: Value) -> i64))]
 struct Demo {
     a: Value,
     #[repe(readonly)]
     ro: Value,
     #[repe(nested)]
     inner: Inner,
+    #[repe(rename = "alias")]
+    renamed: Value,
+    #[repe(skip)]
+    hidden: Value,
 }
 impl Demo {
     fn echo(&self, v: Value) -> Value {
@@ -818,6 +1025,30 @@ impl Demo {
         7
     }
     fn touch(&mut self) {}
+    /// panics while the mount's lock guard is held: String / &'static str / non-string payload
+    fn boom(&self, k: Value) -> i64 {
+        match k.as_i64().unwrap_or(0) % 3 {
+            0 => panic!("{}", String::from("boom (String)")),
+            1 => panic!("boom (&'static str)"),
+            _ => std::panic::panic_any(vec![1u8, 2, 3]),
+        }
+    }
+}
+
+/// A user-defined `Lockable`: a mutex that can be told to refuse (`LockError::Other`).
+struct FlakyLock {
+    inner: Mutex<Demo>,
+    refuse: std::sync::atomic::AtomicBool,
+}
+impl repe::server::Lockable<Demo> for FlakyLock {
+    type Guard<'a> = std::sync::MutexGuard<'a, Demo>;
+    fn lock(&self) -> Result<Self::Guard<'_>, repe::server::LockError> {
+        if self.refuse.load(Ordering::SeqCst) {
+            return Err(repe::server::LockError::other("flaky lock refuses"));
+        }
+        // never reports poisoning: a panic under this lock does not disable the mount
+        Ok(self.inner.lock().unwrap_or_else(|p| p.into_inner()))
+    }
 }
 
 /// The lock kinds `register_struct_shared` / `with_struct_shared` accept (`Lockable`).
@@ -826,14 +1057,16 @@ enum DLock {
     Rw(Arc<std::sync::RwLock<Demo>>),
     TokioM(Arc<tokio::sync::Mutex<Demo>>),
     TokioRw(Arc<tokio::sync::RwLock<Demo>>),
+    Flaky(Arc<FlakyLock>),
 }
 impl DLock {
     fn new(kind: u64) -> DLock {
-        match kind % 4 {
+        match kind % 5 {
             0 => DLock::Std(Arc::new(Mutex::new(Demo::default()))),
             1 => DLock::Rw(Arc::new(std::sync::RwLock::new(Demo::default()))),
             2 => DLock::TokioM(Arc::new(tokio::sync::Mutex::new(Demo::default()))),
-            _ => DLock::TokioRw(Arc::new(tokio::sync::RwLock::new(Demo::default()))),
+            3 => DLock::TokioRw(Arc::new(tokio::sync::RwLock::new(Demo::default()))),
+            _ => DLock::Flaky(Arc::new(FlakyLock { inner: Mutex::new(Demo::default()), refuse: std::sync::atomic::AtomicBool::new(false) })),
         }
     }
     fn mount(&self, router: Router, root: &str, builder_style: bool) -> Router {
@@ -853,6 +1086,7 @@ impl DLock {
             DLock::Rw(l) => go!(l, std::sync::RwLock<Demo>),
             DLock::TokioM(l) => go!(l, tokio::sync::Mutex<Demo>),
             DLock::TokioRw(l) => go!(l, tokio::sync::RwLock<Demo>),
+            DLock::Flaky(l) => go!(l, FlakyLock),
         }
     }
 }
@@ -861,13 +1095,16 @@ struct DState {
     demo: DLock,
     written: BTreeMap<String, Vec<u8>>, // relative path -> canonical JSON last accepted by a write
     ops: Vec<String>,
+    /// from the op history: a `boom` call went through on a poisoning lock, or the flaky lock is told to refuse
+    lock_broken: bool,
+    kind: u64,
 }
 impl DState {
     fn new() -> DState {
         DState::with_lock(0)
     }
     fn with_lock(kind: u64) -> DState {
-        DState { demo: DLock::new(kind), written: BTreeMap::new(), ops: vec![] }
+        DState { demo: DLock::new(kind), written: BTreeMap::new(), ops: vec![], lock_broken: false, kind: kind % 5 }
     }
 }
 
@@ -886,13 +1123,20 @@ fn exec_dstruct(out: &mut Out, ds: &mut DState, line: &str, w: &[&str]) -> (Stri
         out.count("dstruct.none");
         return (format!("{} none", idx), false);
     };
-    let req = request(5, &path, &body, bfmt);
+    let rid = idx.parse::<u64>().map(|i| if i % 5 == 0 { 0 } else { i.wrapping_mul(0x9E37_79B9_7F4A_7C15) }).unwrap_or(5);
+    let req = request(rid, &path, &body, bfmt);
     let view = MessageView { header: req.header, query: &req.query, body: &req.body };
     let ctx = CallContext::detached(&path);
-    let r = catch(|| h.handle_view(&view, &ctx));
+    // borrowed and owned entry, alternating by op index
+    let r = catch(|| if rid % 2 == 0 { h.handle_view(&view, &ctx) } else { h.handle(&req) });
+    let is_boom = path.ends_with("/boom");
     let obs = match r {
         Err(_) => {
-            out.oracle_fail("router.derive.panic", &format!("derived struct at {:?} panicked on {:?}", root, path), &ops);
+            if !is_boom {
+                out.oracle_fail("router.derive.panic", &format!("derived struct at {:?} panicked on {:?}", root, path), &ops);
+            } else if ds.kind < 2 {
+                ds.lock_broken = true; // std Mutex / RwLock: poisoned from now on
+            }
             "PANIC".to_string()
         }
         Ok(Err(_)) => "fail".to_string(),
@@ -909,11 +1153,12 @@ fn exec_dstruct(out: &mut Out, ds: &mut DState, line: &str, w: &[&str]) -> (Stri
         let nroot = if root.is_empty() || root == "/" { String::new() } else if root.starts_with('/') { root.clone() } else { format!("/{}", root) };
         let rel = &path[nroot.len().min(path.len())..];
         let decodable = body.is_empty() || ((bfmt == 2 || bfmt == 3) && serde_json::from_slice::<Value>(&body).is_ok());
-        if decodable {
+        if decodable && !ds.lock_broken && rel != "/boom" {
             let has_body = !body.is_empty();
             let want: Option<&str> = match rel {
                 "" | "/inner" | "/inner/deep" => Some(if has_body { "err 4" } else { "whole" }), // whole write of a non-object: serde rejects
-                "/a" | "/inner/x" | "/inner/deep/z" => Some("ok"),
+                "/a" | "/inner/x" | "/inner/deep/z" | "/alias" => Some("ok"),
+                "/renamed" | "/hidden" => Some("err 6"), // a renamed field answers to its alias only; a skipped field is not an endpoint
                 "/ro" => Some(if has_body { "err 4" } else { "ok" }),
                 "/echo" => Some(if has_body { "ok" } else { "err 4" }),
                 "/ping" | "/touch" => Some("ok"),
@@ -934,7 +1179,7 @@ fn exec_dstruct(out: &mut Out, ds: &mut DState, line: &str, w: &[&str]) -> (Stri
     let norm_root = if root.is_empty() || root == "/" { String::new() } else if root.starts_with('/') { root.clone() } else { format!("/{}", root) };
     let rel = path[norm_root.len().min(path.len())..].to_string();
     let is_method = rel == "/echo" || rel == "/ping" || rel == "/touch";
-    if !is_method {
+    if !is_method && !ds.lock_broken {
         if !body.is_empty() && obs == format!("ok {}", hex(b"null")) {
             if let Some(c) = unhex(w[6]) {
                 ds.written.insert(rel.clone(), c);
@@ -967,6 +1212,14 @@ fn exec_line(out: &mut Out, sc: &mut Scen, ds: &mut DState, line: &str) {
             sc.ops.push(line.to_string());
             out.config(line);
         }
+        "clone" => {
+            // continue on a clone; the original is dropped (clones share nothing mutable)
+            let c = sc.router.clone();
+            sc.router = c;
+            sc.ops.push(line.to_string());
+            out.config(line);
+            out.count("op.clone");
+        }
         "mw" => {
             sc.add_mw(n(2));
             sc.ops.push(line.to_string());
@@ -976,7 +1229,7 @@ fn exec_line(out: &mut Out, sc: &mut Scen, ds: &mut DState, line: &str) {
         "route" => {
             if let Some(p) = s(2) {
                 sc.add_route(&p, n(3));
-                out.count(&format!("op.route.registrar{}", n(3) % 10));
+                out.count(&format!("op.route.registrar{}", n(3) % 11));
             }
             sc.ops.push(line.to_string());
             out.config(line);
@@ -1020,6 +1273,19 @@ fn exec_line(out: &mut Out, sc: &mut Scen, ds: &mut DState, line: &str) {
                             out.oracle_fail("router.tok.rfc6901", &format!("json_pointer::parse({:?}) = {:?}, RFC 6901 says {:?}", p, toks, want), &[line.to_string()]);
                         }
                     }
+                    // `json_pointer::evaluate` walks a document by the same tokens: build the document the
+                    // RFC tokens describe (independently) and look the pointer up
+                    if let Some(want) = rfc6901(&p) {
+                        let mut doc = json!(1);
+                        for t in want.iter().rev() {
+                            let mut m = serde_json::Map::new();
+                            m.insert(t.clone(), doc);
+                            doc = Value::Object(m);
+                        }
+                        if repe::json_pointer::evaluate(&doc, &p) != Some(&json!(1)) {
+                            out.oracle_fail("router.tok.evaluate", &format!("json_pointer::evaluate does not find the value at {:?} in the document its RFC 6901 tokens describe", p), &[line.to_string()]);
+                        }
+                    }
                     out.count("tok");
                     (format!("{} {}", idx, show_segs(&toks)), p.contains('~'))
                 }
@@ -1029,9 +1295,18 @@ fn exec_line(out: &mut Out, sc: &mut Scen, ds: &mut DState, line: &str) {
         }
         "dreset" => {
             *ds = DState::with_lock(n(2));
-            out.count(&format!("dreset.lock{}", n(2) % 4));
+            out.count(&format!("dreset.lock{}", n(2) % 5));
             ds.ops.push(line.to_string());
             out.config(line);
+        }
+        "dlockfail" => {
+            if let DLock::Flaky(l) = &ds.demo {
+                l.refuse.store(n(2) == 1, Ordering::SeqCst);
+                ds.lock_broken = n(2) == 1;
+            }
+            ds.ops.push(line.to_string());
+            out.config(line);
+            out.count("op.dlockfail");
         }
         "dstruct" => {
             let (obs, nt) = exec_dstruct(out, ds, line, &w);
@@ -1080,30 +1355,50 @@ impl Gen {
             "/s/a~1b/~01", "/a/~0", "/r/x~1",
         ];
         self.push("reset", "");
-        let n_ops = self.rng.range(3, 12);
+        let n_ops = if self.rng.chance(1, 12) { self.rng.range(12, 30) } else { self.rng.range(3, 12) };
         let mut used: Vec<String> = vec![];
+        // a few paths of this scenario's own: non-ASCII, long, deep (plain segments: a registry below must be able to name them)
+        let mut own: Vec<String> = vec![];
+        for _ in 0..self.rng.below(3) {
+            let depth = self.rng.range(1, 4);
+            let mut p = String::new();
+            for _ in 0..depth {
+                p.push('/');
+                match self.rng.below(6) {
+                    0 => p.push_str(&"long".repeat(self.rng.range(1, 80) as usize)),
+                    1 => p.push_str("日本語"),
+                    2 => p.push_str("é"),
+                    _ => p.push_str(["a", "r", "s", "k9", "Z_z", "x-y"][self.rng.below(6) as usize]),
+                }
+            }
+            own.push(p);
+        }
         for _ in 0..n_ops {
-            match self.rng.below(10) {
+            let pick_own = !own.is_empty() && self.rng.chance(1, 3);
+            match self.rng.below(11) {
                 0..=2 => {
-                    let id = 100 + self.fresh();
+                    // id % 8 is the middleware's behaviour: mostly forwarding, sometimes rewriting / answering / failing
+                    let k = match self.rng.below(25) { 0 => 6, 1 => 7, 2 | 3 => 5, _ => self.rng.below(5) };
+                    let id = 8 * (100 + self.fresh()) + k;
                     self.push("mw", &id.to_string());
                 }
                 3..=5 => {
-                    let p = *self.rng.pick(ROUTES);
+                    let p = if pick_own { self.rng.pick(&own).clone() } else { self.rng.pick(ROUTES).to_string() };
                     let id = self.fresh();
-                    self.push("route", &format!("{} {}", shex(p), id));
-                    used.push(p.to_string());
+                    self.push("route", &format!("{} {}", shex(&p), id));
+                    used.push(p);
                 }
                 6..=7 => {
-                    let p = *self.rng.pick(REGS);
+                    let p = if pick_own { self.rng.pick(&own).clone() } else { self.rng.pick(REGS).to_string() };
                     let id = self.fresh();
-                    self.push("reg", &format!("{} {}", shex(p), id));
+                    self.push("reg", &format!("{} {}", shex(&p), id));
                 }
-                _ => {
-                    let p = *self.rng.pick(STRUCTS);
+                8..=9 => {
+                    let p = if pick_own { self.rng.pick(&own).clone() } else { self.rng.pick(STRUCTS).to_string() };
                     let id = self.fresh();
-                    self.push("struct", &format!("{} {}", shex(p), id));
+                    self.push("struct", &format!("{} {}", shex(&p), id));
                 }
+                _ => self.push("clone", ""),
             }
             // observe after every registration: the routes registered so far plus a few probes
             for p in used.clone() {
@@ -1114,6 +1409,12 @@ impl Gen {
             for _ in 0..2 {
                 let p = *self.rng.pick(PROBES);
                 self.push("get", &shex(p));
+            }
+            for o in own.clone() {
+                if self.rng.chance(1, 2) {
+                    let tail = ["", "/k9", "/a/r", "x", "/"][self.rng.below(5) as usize];
+                    self.push("get", &shex(&format!("{}{}", o, tail)));
+                }
             }
         }
         for p in PROBES {
@@ -1186,7 +1487,7 @@ impl Gen {
             4 => 17,
             5 => 18,
             6 => 40,
-            7 => 32,
+            7 => if self.rng.chance(1, 4) { *self.rng.pick(&[64u64, 65, 128, 300]) } else { 32 },
             _ => self.rng.range(0, 40),
         };
         let escapes = self.rng.chance(1, 2);
@@ -1217,12 +1518,28 @@ impl Gen {
         const PATHS: &[&str] = &[
             "", "/a", "/ro", "/inner", "/inner/x", "/inner/deep", "/inner/deep/z", "/echo", "/ping", "/touch", "/", "/a/", "/a/b", "/nope", "/inner/nope",
             "/inner/deep/z/q", "/inner//x", "/ping/x", "/a~0", "/inner~1x", "/inner/deep/z/1/2/3/4/5/6/7/8/9/10/11/12/13/14/15/16",
+            "/a", "/inner/x", "/inner/deep/z", "/echo", "/alias", "/renamed", "/hidden",
         ];
-        let lock = self.rng.below(4);
+        let lock = self.rng.below(5);
         self.push("dreset", &lock.to_string());
         let root = *self.rng.pick(ROOTS);
         let norm = if root.is_empty() { String::new() } else if root.starts_with('/') { root.to_string() } else { format!("/{}", root) };
         for _ in 0..self.rng.range(8, 30) {
+            // now and then: a method that panics under the lock, or the user lock told to refuse / serve again
+            match self.rng.below(40) {
+                0 => {
+                    let k = self.rng.below(3);
+                    let body = serde_json::to_vec(&json!(k)).unwrap();
+                    self.push("dstruct", &format!("{} {} 2 {} {} 1000 0", shex(root), shex(&format!("{}/boom", norm)), hex(&body), hex(&body)));
+                    continue;
+                }
+                1 | 2 => {
+                    let b = self.rng.below(2);
+                    self.push("dlockfail", &b.to_string());
+                    continue;
+                }
+                _ => {}
+            }
             let rel = *self.rng.pick(PATHS);
             let path = format!("{}{}", norm, rel);
             let v: Value = match self.rng.below(7) {
@@ -1254,31 +1571,56 @@ impl Gen {
     // ---- (iv) twins
     fn twin(&mut self, kind: &str, bfmt: u16, body: Vec<u8>) {
         let blocking = matches!(kind, "json" | "jsonctx" | "typed" | "typedctx") && self.rng.chance(1, 2);
-        let nmw = *self.rng.pick(&[0u64, 0, 1, 2, 3]);
+        let nmw = *self.rng.pick(&[0u64, 0, 1, 2, 3, 3, 7, 8, 9, 16, 17, 33]);
         let ok = self.rng.chance(3, 4);
-        let code = *self.rng.pick(&[4096u32, 5, 9, 6, 4]);
+        let code = *self.rng.pick(&[4096u32, 5, 9, 6, 4, 0, 1, 8, 7]);
         let hints = hints_for(kind, &body);
         let order = self.rng.below(2);
         let voff = self.rng.below(9);
-        let (qfmt, query): (u16, Vec<u8>) = match self.rng.below(10) {
-            0 => (0, TWIN_PATH.as_bytes().to_vec()),
+        // where the route lives: the usual short path, non-ASCII, long, deep
+        let tpath: String = match self.rng.below(8) {
+            0 => "/é/日本".to_string(),
+            1 => format!("/{}/{}", "p".repeat(self.rng.range(1, 300) as usize), "q".repeat(self.rng.range(1, 300) as usize)),
+            2 => "/a/b/c/d/e/f/g/h/i/j/k/l/m/n/o/p/q/r/s/t".to_string(),
+            3 => "/T/x".to_string(),
+            _ => TWIN_PATH.to_string(),
+        };
+        let tb = tpath.as_bytes().to_vec();
+        let (qfmt, query): (u16, Vec<u8>) = match self.rng.below(14) {
+            0 => (0, tb.clone()),
             1 => (1, vec![]),
             2 => (1, self.rng.bytes(5)),
-            3 => (77, TWIN_PATH.as_bytes().to_vec()),
-            4 => (1, b"/t".to_vec()),
-            5 => (1, b"/t/x/deeper/~1".to_vec()),
-            _ => (1, TWIN_PATH.as_bytes().to_vec()),
+            3 => (77, tb.clone()),
+            4 => (1, split_last(&tpath).0.as_bytes().to_vec()),
+            5 => (1, format!("{}/deeper/~1", tpath).into_bytes()),
+            6 => (65535, tb.clone()),
+            7 => (1, [tb.clone(), vec![0xff, 0xfe]].concat()), // not UTF-8
+            8 => (1, format!("{}{}", tpath, "/z".repeat(2000)).into_bytes()), // very long
+            _ => (1, tb.clone()),
         };
         let rid = self.rng.boundary(64);
+        let notify = *self.rng.pick(&[0u8, 0, 0, 1, 2, 255]);
+        let version = *self.rng.pick(&[1u8, 1, 1, 1, 0, 2, 255]);
+        let reserved = if self.rng.chance(1, 4) { self.rng.boundary(32) } else { 0 };
+        let reqec = if self.rng.chance(1, 4) { self.rng.boundary(32) } else { 0 };
+        let trfmt = self.rng.below(15);
+        let cb = match self.rng.below(32) { 0 | 1 => 1, 2 | 3 => 2, 4 | 5 => 3, 6 => 4, _ => 0 };
+        let srv = self.rng.below(16);
+        let decoys = *self.rng.pick(&[0u64, 0, 1, 2, 3, 3]);
         self.push(
             "twin",
-            &format!("{} {} {} {} {} {} {} {} {} {} {} {} {}", kind, blocking as u8, nmw, bfmt, hex(&body), hints, if ok { "ok" } else { "err" }, code, order, voff, qfmt, hex(&query), rid),
+            &format!(
+                "{} {} {} {} {} {} {} {} {} {} {} {} {} {} {} {} {} {} {} {} {} {}",
+                kind, blocking as u8, nmw, bfmt, hex(&body), hints, if ok { "ok" } else { "err" }, code, order, voff, qfmt, hex(&query), rid, notify, version, reserved, reqec, trfmt, cb,
+                shex(&tpath), srv, decoys
+            ),
         );
     }
 
     fn twin_body(&mut self, kind: &str, bfmt: u16) -> Vec<u8> {
         let p = P { a: self.rng.boundary(63) as i64 - 5, s: ["", "x", "é~/", "long string value"][self.rng.below(4) as usize].to_string() };
-        let xs: Vec<f64> = (0..self.rng.below(6)).map(|i| i as f64 * 1.5 - 2.0).collect();
+        let nx = if self.rng.chance(1, 12) { self.rng.range(1000, 9000) } else { self.rng.below(6) };
+        let xs: Vec<f64> = (0..nx).map(|i| i as f64 * 1.5 - 2.0).collect();
         let typed = matches!(kind, "typed" | "typedctx" | "adapter");
         let slice = matches!(kind, "slice" | "sliceref");
         // half of the cases: a body that is well formed for this kind under this format code
@@ -1301,7 +1643,7 @@ impl Gen {
             5 => beve::to_vec(&json!({"k": [1, 2.5, "s"], "n": null})).unwrap(),
             6 => vec![],
             7 => {
-                let n = self.rng.below(40) as usize;
+                let n = if self.rng.chance(1, 10) { self.rng.range(1000, 70000) as usize } else { self.rng.below(40) as usize };
                 self.rng.bytes(n)
             }
             8 => b"\"just a string\"".to_vec(),
@@ -1365,7 +1707,7 @@ fn generate(args: &Args) -> Vec<String> {
     for p in ["", "/", "/~01", "/~10", "/a~1b/~0~1", "//", "/a/"] {
         g.push("tok", &shex(p));
     }
-    let (n_scen, n_pairs, n_struct, n_twin_rounds) = if thorough { (20000, 300000, 400000, 500) } else { (500, 8000, 12000, 10) };
+    let (n_scen, n_pairs, n_struct, n_twin_rounds) = if thorough { (15000, 200000, 300000, 250) } else { (500, 8000, 12000, 10) };
     for _ in 0..n_scen {
         g.scenario();
     }
